@@ -1,7 +1,7 @@
 (* Correspondence driver for Count-Min: replays a Z-encoded case on the model and
    yields the same observations the Rust harness prints; plus the property oracle used
    by the search when the tie breaks.  (No proofs here.) *)
-From DS Require Import Base.Prelude Base.FloatBits Model.CountMin.
+From DS Require Import Base.Prelude Base.FloatBits Base.Oracles Model.CountMin Spec.CountMinLayout.
 From Coq Require Import Floats.
 Open Scope Z_scope.
 
@@ -11,6 +11,9 @@ Definition ty_max (ty : Z) : N :=
   | 0 => 255 | 1 => 65535 | 2 => 4294967295 | 3 => 18446744073709551615
   | 4 => 127 | 5 => 32767 | 6 => 2147483647 | _ => 9223372036854775807
   end).
+
+Definition ty_size (ty : Z) : N :=
+  zN (match ty with 0 | 4 => 1 | 1 | 5 => 2 | 2 | 6 => 4 | _ => 8 end).
 
 (* c.decay(d) = (c as f64 * d).trunc() as T  (values below 2^63 only; see DESIGN) *)
 Definition decay_fn (mx : N) (dbits : Z) (c : N) : N :=
@@ -32,37 +35,55 @@ Definition step (cfg : list Z) (st : slots) (o : zop) : slots * list Z :=
          | Some s => match cm_update s (zN (nth 2 a 0)) (map zN (skipn 3 a)) with
                      | Ok s' => (put_slot st slot s', [])
                      | _ => (st, PANIC) end
-         | None => (st, PANIC) end
+         | None => (st, EMPTY) end
   | 2 => match get_slot st slot with
          | Some s => (st, [Nz (cm_estimate s (map zN (skipn 2 a)))])
-         | None => (st, PANIC) end
+         | None => (st, EMPTY) end
   | 3 => match get_slot st slot with
          | Some s => (st, map Nz (cm_serialize s))
-         | None => (st, PANIC) end
+         | None => (st, EMPTY) end
   | 4 => match get_slot st slot, get_slot st (nth 1 a 0) with
          | Some s, Some o => match cm_merge s o with
                              | Ok s' => (put_slot st slot s', [])
                              | _ => (st, PANIC) end
-         | _, _ => (st, PANIC) end
+         | _, _ => (st, EMPTY) end
   | 5 => match get_slot st slot with
          | Some s => (put_slot st slot (cm_halve s), [])
-         | None => (st, PANIC) end
+         | None => (st, EMPTY) end
   | 6 => match get_slot st slot with
          | Some s => (put_slot st slot (cm_scale (decay_fn mx (nth 1 a 0)) s), [])
-         | None => (st, PANIC) end
+         | None => (st, EMPTY) end
   | 7 => match get_slot st slot with
          | Some s => match cm_deserialize mx sh (cm_serialize s) with
                      | Ok s' => (put_slot st slot s', [1])
                      | _ => (st, ERR) end
-         | None => (st, PANIC) end
+         | None => (st, EMPTY) end
   | 8 => match get_slot st slot with
          | Some s => (st, [Nz (cm_total s)])
-         | None => (st, PANIC) end
-  | 9 => (* deserialize arbitrary bytes into a slot: a = slot :: bytes *)
-         match cm_deserialize mx sh (map zN (skipn 1 a)) with
-         | Ok s' => (put_slot st slot s', [1])
-         | Err => (st, ERR)
-         | Stuck => (st, PANIC) end
+         | None => (st, EMPTY) end
+  | 9 => (* deserialize arbitrary bytes into a slot: a = slot :: bytes.  The crate allocates the
+            table of [entries] cells as soon as the header is accepted; the harness flags a peak
+            allocation above 64*len + 1 MiB as ALLOC and drops the result. *)
+         let bs := map zN (skipn 1 a) in
+         match cm_parse_header sh bs with
+         | Ok (_, _, flags, entries) =>
+             let present := negb (N.eqb (N.land flags 1) 0) ||
+                            negb (N.of_nat (length bs) <? 16 + (entries + 1) * 8)%N in
+             if present && (64 * N.of_nat (length bs) + 1048576 <? entries * ty_size ty)%N
+             then (set_nth (Z.to_nat slot) None st, ALLOC)
+             else match cm_deserialize mx sh bs with
+                  | Ok s' => (put_slot st slot s', [1])
+                  | Err => (set_nth (Z.to_nat slot) None st, ERR)
+                  | Stuck => (st, PANIC) end
+         | Err => (set_nth (Z.to_nat slot) None st, ERR)
+         | Stuck => (st, PANIC)
+         end
+  | 10 => (* fork: dst := deserialize(serialize(src)), src kept *)
+         match get_slot st slot with
+         | Some s => match cm_deserialize mx sh (cm_serialize s) with
+                     | Ok s' => (put_slot st (nth 1 a 0) s', [1])
+                     | _ => (st, ERR) end
+         | None => (st, EMPTY) end
   | _ => (st, PANIC)
   end.
 
@@ -114,6 +135,7 @@ Fixpoint prop_from (cfg : list Z) (st : ospec) (ops : list zop) (obs : list (lis
              prop_from cfg (op_ st slot (map (fun p => (fst p, g (snd p))) m, g t)) r obr
       | 8 => let '(m, t) := og st slot in (Nz t =? nth 0 ob 0) && prop_from cfg st r obr
       | 9 => true (* arbitrary image: history unknown from here on *)
+      | 10 => prop_from cfg (op_ st (nth 1 a 0) (og st slot)) r obr
       | _ => prop_from cfg st r obr
       end
   | _, _ => true
@@ -122,5 +144,65 @@ Fixpoint prop_from (cfg : list Z) (st : ospec) (ops : list zop) (obs : list (lis
 Definition prop_ok (c : case) : bool :=
   prop_from (c_cfg c) (repeat ([], 0%N) 8) (c_ops c) (c_obs c).
 
+(* ---------- C11: deserialize(serialize(s)) behaves exactly as s (twin oracle) ---------- *)
+Definition prop_roundtrip : case -> bool := twin_oracle 10 [0; 9].
+
+(* ---------- C12 / C18: the emitted bytes decode, with the independent layout decoder, to the
+   exact table the Spec computes from the history; image size is fixed by the configuration ---- *)
+Definition spec_state := (N * list N)%type.     (* total, row-major exact table *)
+Fixpoint spec_add (nb w row : N) (bk : list N) (t : list N) : list N :=
+  match bk with
+  | [] => t
+  | b :: r => let i := (row * nb + b)%N in spec_add nb w (row + 1)%N r (set_nthN i (nthN t i 0 + w)%N t)
+  end.
+Definition sg (st : list (option spec_state)) (i : Z) := nth (Z.to_nat i) st None.
+Definition sp (st : list (option spec_state)) (i : Z) v := set_nth (Z.to_nat i) v st.
+
+Fixpoint layout_from (cfg : list Z) (st : list (option spec_state)) (ops : list zop) (obs : list (list Z)) : bool :=
+  match ops, obs with
+  | (code, a) :: r, ob :: obr =>
+      let nh := zN (nth 1 cfg 0) in let nb := zN (nth 2 cfg 0) in let sh := zN (nth 4 cfg 0) in
+      let mx := ty_max (nth 0 cfg 0) in
+      let slot := nth 0 a 0 in
+      if list_eqb Z.eqb ob PANIC then true else
+      match code with
+      | 0 => layout_from cfg (sp st slot (Some (0%N, repeat 0%N (N.to_nat (nh * nb))))) r obr
+      | 1 => match sg st slot with
+             | Some (t, tab) => let w := zN (nth 2 a 0) in
+                 layout_from cfg (sp st slot (Some (N.add t w, spec_add nb w 0 (map zN (skipn 3 a)) tab))) r obr
+             | None => layout_from cfg st r obr end
+      | 3 => match sg st slot with
+             | Some (t, tab) =>
+                 let bytes := map zN ob in
+                 (match spec_decode bytes with
+                  | Some d => N.eqb (a_nb d) nb && N.eqb (a_nh d) nh && N.eqb (a_sh d) sh && N.eqb (a_total d) t &&
+                              list_eqb N.eqb (a_cells d) tab
+                  | None => false end) &&
+                 (* C18: the size is fixed by the configuration *)
+                 Nat.eqb (length ob) (if N.eqb t 0 then 16 else 16 + 8 + 8 * N.to_nat (nh * nb)) &&
+                 layout_from cfg st r obr
+             | None => layout_from cfg st r obr end
+      | 4 => match sg st slot, sg st (nth 1 a 0) with
+             | Some (t, tab), Some (t2, tab2) =>
+                 layout_from cfg (sp st slot (Some (N.add t t2, map (fun p => N.add (fst p) (snd p)) (combine tab tab2)))) r obr
+             | _, _ => layout_from cfg st r obr end
+      | 5 => match sg st slot with
+             | Some (t, tab) => layout_from cfg (sp st slot (Some (N.div t 2, map (fun c => N.div c 2) tab))) r obr
+             | None => layout_from cfg st r obr end
+      | 6 => match sg st slot with
+             | Some (t, tab) => let g := decay_fn mx (nth 1 a 0) in
+                 layout_from cfg (sp st slot (Some (g t, map g tab))) r obr
+             | None => layout_from cfg st r obr end
+      | 9 => layout_from cfg (sp st slot None) r obr      (* arbitrary image: unknown history *)
+      | 10 => layout_from cfg (sp st (nth 1 a 0) (sg st slot)) r obr
+      | _ => layout_from cfg st r obr
+      end
+  | _, _ => true
+  end.
+Definition prop_layout (c : case) : bool :=
+  layout_from (c_cfg c) (repeat None 8) (c_ops c) (c_obs c).
+
+Definition no_panic : case -> bool := no_panic_oracle.
+
 (* oracles by number (tools/families/countmin.py: ORACLES) *)
-Definition oracles : list (Z * (case -> bool)) := [(0, prop_ok)].
+Definition oracles : list (Z * (case -> bool)) := [(0, prop_ok); (1, prop_roundtrip); (2, prop_layout); (3, no_panic)].
